@@ -252,16 +252,12 @@ def behaviour(res, rng, tier):
         # struct-level `forward` switched off again for the selected field by `not(forward)`: back to the field's own storage
         # (added after seed C14-j: a field-level `not(..)` must override what the struct-level attribute turned on)
         n, k, named, style, acc = shape()
-        if n > 1:
-            src = struct_src(["Deref", "DerefMut"], ["#[deref(not(forward))]", "#[deref_mut(not(forward))]"], n, k, named, "W", "select")
-            src = src.replace("pub struct", "#[deref(forward)] #[deref_mut(forward)] pub struct")
-            for j in range(n):
-                if j != k:
-                    src = src.replace(f"pub f{j}: W" if named else "pub W", ("#[deref(ignore)] #[deref_mut(ignore)] " + (f"pub f{j}: W" if named else "pub_W")), 1)
-            src = src.replace("pub_W", "pub W")
-        else:
-            src = struct_src(["Deref", "DerefMut"], ["#[deref(not(forward))]", "#[deref_mut(not(forward))]"], n, k, named, "W", "select",
-                             struct_attr="#[deref(forward)] #[deref_mut(forward)] ")
+        fs = []
+        for j in range(n):
+            a = "#[deref(not(forward))] #[deref_mut(not(forward))] " if j == k else "#[deref(ignore)] #[deref_mut(ignore)] "
+            fs.append(a + (f"pub f{j}: W" if named else "pub W"))
+        body = " { " + ", ".join(fs) + " }" if named else "(" + ", ".join(fs) + ");"
+        src = f"#[derive(derive_more::Deref, derive_more::DerefMut, Clone, Debug)] #[deref(forward)] #[deref_mut(forward)] pub struct S{body}"
         f = acc(k)
         add(src, [
             f"let mut s = {ctor(n, named, lambda i: f'W::new({20 * i})')};",
